@@ -223,6 +223,11 @@ func (env *specEnv) eval(x Expr) Val {
 		c.vars[n.Var] = Val{T: t, L: []string{quoteSym(vn)}}
 		nFacts := len(e.rangeFacts)
 		body := c.eval(n.Body)
+		var pats []string
+		for _, tr := range n.Trig {
+			tv := c.eval(tr)
+			pats = append(pats, tv.L...)
+		}
 		e.rangeFacts = e.rangeFacts[:nFacts] // facts about terms containing the bound variable cannot be asserted globally
 		rng := e.sorter.rangeOf(quoteSym(vn), t)
 		if _, isPtr := t.Underlying().(*types.Pointer); isPtr {
@@ -239,6 +244,10 @@ func (env *specEnv) eval(x Expr) Val {
 			if rng != "" {
 				b = sand(rng, b)
 			}
+		}
+		if len(pats) > 0 {
+			// user-given instantiation pattern (a multi-pattern when several terms are listed)
+			b = "(! " + b + " :pattern (" + strings.Join(pats, " ") + "))"
 		}
 		return Val{T: tBool, L: []string{fmt.Sprintf("(%s ((%s %s)) %s)", q, quoteSym(vn), ls[0].sort, b)}}
 	}
@@ -942,6 +951,18 @@ func (e *FnEnc) defineSpec(sf *SpecFunc) *specSig {
 			sorts = append(sorts, r.sort)
 		}
 		e.specDefs = append(e.specDefs, fmt.Sprintf("(declare-fun %s (%s) %s)", quoteSym("sf_"+sf.Name), strings.Join(sorts, " "), rl[0].sort))
+		// the result is a value of its Go type (e.g. an int is within the int range)
+		if len(sorts) > 0 && isIntType(sig.ret) {
+			var bs, as []string
+			for i, s := range sorts {
+				bs = append(bs, fmt.Sprintf("(a!%d %s)", i, s))
+				as = append(as, fmt.Sprintf("a!%d", i))
+			}
+			app := "(" + quoteSym("sf_"+sf.Name) + " " + strings.Join(as, " ") + ")"
+			if rng := e.sorter.rangeOf(app, sig.ret); rng != "" {
+				e.specDefs = append(e.specDefs, fmt.Sprintf("(assert (forall (%s) (! %s :pattern (%s))))", strings.Join(bs, " "), rng, app))
+			}
+		}
 		e.specDone[key] = sig
 		return sig
 	}
